@@ -58,6 +58,9 @@ def candidates(rng, n):
     base.append(enum(0, [variant("Mon"), variant("Tue"), variant("Off1", dis=True), variant("Off2", dis=True), variant("Wed"), variant("Thu", dis=True)]))
     base.append(enum(0, [variant("Loose", ser=["Red"], aci=1), variant("Get", ser=["get"], aci=0), variant("Longest", ser=["Crimson"], aci=1), variant("Plain")]))
     base.append(enum(0, []))
+    # field-less enums may still have (const) generic parameters
+    base.append(enum(0, [variant("A"), variant("B", ser=["b", "bee"]), variant("C", aci=1)], generics="const"))
+    base.append(enum(0, [variant("Only")], generics="constdef"))
     for E in SC.dictionary(1):
         base.append(fieldless(copy.deepcopy(E)))
     for k in range(n):
@@ -88,7 +91,7 @@ def key(E, facts, text):
                 dup = True
             if len(set(sps)) < len(sps):
                 dup = True
-    return dict(phf=bool(E and E["phf"]), phf_dup_key_shape=dup)
+    return dict(phf=bool(E and E["phf"]), phf_dup_key_shape=dup, const_generic=bool(E and E["generics"] in ("const", "constdef")))
 
 
 def module(E):
